@@ -10,7 +10,7 @@ import os
 import shutil
 import tempfile
 
-from .. import cli, medium, model, real, world
+from .. import cli, medium, model, real, synth, world
 from ..layout import layout
 from ..runner import Result
 from . import common
@@ -63,7 +63,7 @@ def make_case(i, rng, tier):
         return {"mode": "refuse", "kind": kind, "data": inp["data"].hex(), "cc": inp["cc"],
                 "typo": rng.choice(("drop", "swap", "case", "extra"))}
     if r < 0.17:
-        t = rng.choice([("struct", rng.choice([n for n in L.struct_names() if "_SYN" not in n])), ("command", rng.choice(sorted(L.commands)), 0, False),
+        t = rng.choice([("struct", rng.choice([n for n in L.struct_names() if n not in synth.SYNTH])), ("command", rng.choice(sorted(L.commands)), 0, False),
                         ("response", rng.choice(sorted(L.commands)), 0, False, None)])
         from .. import gen
         k = gen.Knobs(rng)
@@ -92,7 +92,7 @@ def make_case(i, rng, tier):
         inp = common.gen_input(rng, ("stream", None), k)
     else:
         inp = common.gen_input(rng, common.target_for(10 ** 9, rng))
-    if inp["root"].startswith(("TPMS_COMMAND_", "TPMS_RESPONSE_")) or "_SYN" in inp["root"]:
+    if inp["root"] in L.area_names() or inp["root"] in synth.SYNTH:
         return None      # area types and this machinery's synthetic types are not CLI type names
     if inp["enc"]:
         return None      # the CLI cannot be told the encryption flag of a lone response
@@ -141,7 +141,7 @@ def example_names():
     if _NAMES is None:
         L = layout()
         out = [("command", L.commands[cc]["name"], cc) for cc in sorted(L.commands)]
-        out += [("type", n, None) for n in L.struct_names() if "_SYN" not in n and "#" not in n]
+        out += [("type", n, None) for n in L.struct_names() if n not in synth.SYNTH and "#" not in n]
         _NAMES = out
     return _NAMES
 
@@ -345,7 +345,7 @@ def _type(case, res, tmp):
     # the universe of types is the pinned snapshot's (every structure type, Command, Response - the CLI does not offer the
     # handle / parameter area types), not whatever list the tree under test currently exports
     L = layout()
-    universe = [real.get_type(n) for n in L.struct_names() if "_SYN" not in n] + [real.get_type("Command"), real.get_type("Response")]
+    universe = [real.get_type(n) for n in L.struct_names() if n not in synth.SYNTH] + [real.get_type("Command"), real.get_type("Response")]
     seen_ids = set()
     for t in universe:
         if id(t) in seen_ids:
